@@ -308,12 +308,21 @@ func finishAfterFaults(r *harness.Runner) (v *harness.Violation) {
 	suffix := &harness.Program{Cfg: r.P.Cfg, Items: []harness.Item{
 		{Tx: &harness.Tx{Ops: []harness.Op{{K: harness.OpAlloc, A: 2}, {K: harness.OpWrite, A: 1 << 20, C: 970001}, {K: harness.OpWriteMany, A: 1, B: 2, C: 970002}}, End: harness.EndCommit}},
 	}}
+	snap := f.VerifState()
+	roomy := snap.MaxPages == 0
+	if !roomy {
+		avail := int(snap.DataAvail)
+		if uint(snap.DataEnd) < snap.MaxPages {
+			avail += int(snap.MaxPages) - int(snap.DataEnd)
+		}
+		roomy = avail >= 40 // small files that ran full: the continuation may fail for lack of space
+	}
 	sr := harness.NewRunnerOn(suffix, harness.RunOpts{CheckContent: true, Drain: true, Faults: true}, r.Disk, f, got)
 	if v := sr.Run(); v != nil {
 		v.Clause = clause("after-faults-" + v.Clause)
 		return v
 	}
-	if sr.Counters["commit"] == 0 {
+	if sr.Counters["commit"] == 0 && roomy {
 		return &harness.Violation{Clause: clause("after-faults-commit"), Item: -1, Msg: "transaction after the failures stopped (and a clean reopen) did not commit"}
 	}
 	return nil
